@@ -189,7 +189,10 @@ def translate(repo):
 
 def commit_tag_names(c):
     """names of the git tags of a commit: its build tags ("t", rendered the way the build server names them) and the
-    other tags it carries ("xt": names that are no successful-build tags)"""
+    other tags it carries ("xt": names that are no successful-build tags); a commit decoded from a protocol line keeps
+    the names of the line ("names"), so that the real code sees exactly the spelling the model saw"""
+    if c.get("names") is not None:
+        return list(c["names"])
     return [tag_name(bn) for bn in c.get("t", [])] + list(c.get("xt", []))
 
 
@@ -299,6 +302,7 @@ def dec_hist(remote, commits, refs):
             c = {"p": [] if p == "-" else [int(x) for x in p.split(",")], "t": bns, "m": int(m), "ts": int(ts)}
             if other:
                 c["xt"] = other
+            c["names"] = [] if t == "-" else [dec_str(tok2) for tok2 in t.split("+")]
             if sv != "-":
                 c["sv"] = [int(x) for x in sv.split(".")]
             cs.append(c)
